@@ -47,6 +47,11 @@ type Fault struct {
 	Event     int    `json:"event,omitempty"`      // cancel: first transport event that fails
 	K         int    `json:"k,omitempty"`          // list_error: index of the failing ContainerList call
 	DelayMs   int    `json:"delay_ms,omitempty"`   // slow_read, open_latency
+	// ErrKind selects the error value: for cut "" = io.EOF, "unexpected" =
+	// io.ErrUnexpectedEOF (what an HTTP body reports when the connection drops);
+	// for read_error "" = a custom error, "deadline" = context.DeadlineExceeded,
+	// "closed" = io.ErrClosedPipe.
+	ErrKind string `json:"err_kind,omitempty"`
 }
 
 // Variant is one execution configuration of a plan: everything the
